@@ -208,8 +208,11 @@ def run_impl(c):
     d = tempfile.mkdtemp(prefix="c13")
     try:
         text = "\n".join(i["line"] for i in c["items"]) + "\n"
+        if c["k"] == "forms" and (len(c["items"]) + c["checklines"]) % 4 == 1:
+            # written on another system: CRLF line ends, a header directive and blank lines - still the same features, in every form
+            text = "##gff-version 3\r\n" + "\r\n".join(i["line"] for i in c["items"]) + "\r\n\r\n"
         path = os.path.join(d, "a.gff")
-        with open(path, "w") as fh:
+        with open(path, "w", newline="") as fh:
             fh.write(text)
         if c["k"] == "inspect":
             from gffutils import inspect as insp
@@ -235,8 +238,8 @@ def run_impl(c):
                 e = ["err", L.err_class(ex)]
                 return {"count": e, "ftypes": e, "chroms": e, "keys": e}
         gzpath = os.path.join(d, "a.gff.gz")
-        with gzip.open(gzpath, "wt") as fh:
-            fh.write(text)
+        with gzip.open(gzpath, "wb") as fh:
+            fh.write(text.encode("utf-8"))
         flags = [i["flag"] for i in c["items"]]
         obs = []
         for form in FORMS:
